@@ -287,10 +287,80 @@ def r4_wiring(ctx):
     ctx.check("entity_graphs" in wr, "rebuild_graphs/rewrites-entity_graphs", site_of(rg), "entity_graphs is not rewritten by rebuild")
 
 
+def r5_edge_symmetry(ctx):
+    """Removing a relation undoes every edge adding it may have created. Two observers add an edge for the same relation (insert of the
+    relationship, insert of Replicated - both fire when they arrive in one bundle) and adding is not idempotent, so parallel edges
+    exist; only one OnReplace fires when the relationship is removed or re-targeted. A stale edge keeps unrelated entities in one
+    group: their mutations are packed as one indivisible chunk (exceeding the size bound) - or, for the opposite error, related
+    entities are split."""
+    F = ctx.F
+    ar = ctx.fn("related_entities::RelatedEntities::add_relation")
+    rr = ctx.fn("related_entities::RelatedEntities::remove_relation")
+    adds = [(bb, t) for bb, t in ar.calls() if callee_decl(t).rsplit("::", 1)[-1] in ("add_edge", "update_edge")]
+    if not ctx.check(bool(adds), "add_relation/adds-edge", site_of(ar), "add_relation does not add an edge"):
+        return
+    QUERY = ("find_edge", "contains_edge", "edges_connecting", "find_edge_undirected")
+    idempotent = all(callee_decl(t).endswith("update_edge") for _, t in adds)
+    for bb, t in adds:
+        for (sb, c, o) in required_outcomes(F, ar, bb):
+            ops = list(c.get("args", [])) + list(c.get("operands", [])) + ([{"k": "copy", "place": c["place"]}] if "place" in c else [])
+            for op in ops:
+                if any(k == "call" and callee_decl(ar.blocks[d].term).rsplit("::", 1)[-1] in QUERY for (k, d) in dep_closure(ar, op)):
+                    idempotent = True
+    rems = [(bb, t) for bb, t in rr.calls() if callee_decl(t).rsplit("::", 1)[-1] == "remove_edge"]
+    retain = [(bb, t) for bb, t in rr.calls() if callee_decl(t).rsplit("::", 1)[-1] in ("retain_edges",)]
+    all_removed = bool(retain)
+    if rems and not all_removed:
+        in_loop = all(rr.loops_containing(bb) for bb, _ in rems)
+        rtr = tracer(rr)
+
+        def fields_of(op):
+            return {(e[3], e[2]) for o in rtr.operand(op) for e in o.path if e[0] == "f"} | \
+                   {(e[3], e[2]) for (k, d) in dep_closure(rr, op) if k == "call" for a_ in rr.blocks[d].term.get("args", [])[:1] for o in rtr.operand(a_) for e in o.path if e[0] == "f"}
+
+        def from_connecting(op, depth=0):
+            deps = dep_closure(rr, op)
+            if any(k == "call" and callee_decl(rr.blocks[d].term).rsplit("::", 1)[-1] == "edges_connecting" for (k, d) in deps):
+                return True
+            if depth:
+                return False
+            # through a scratch buffer field filled in this function: buffer.extend(<edges_connecting ...>) ... buffer.drain(..)
+            flds = fields_of(op)
+            for bb2, t2 in rr.calls():
+                if callee_decl(t2).rsplit("::", 1)[-1] in ("extend", "push", "extend_from_slice") and len(t2["args"]) > 1:
+                    recv = {(e[3], e[2]) for o in rtr.operand(t2["args"][0]) for e in o.path if e[0] == "f"}
+                    if recv & flds and from_connecting(t2["args"][1], 1):
+                        return True
+            return False
+        from_all = all(from_connecting(t["args"][1]) for _, t in rems)
+        # a single pick (find/nth/..) is fine only when it is re-evaluated by the loop (`while let Some(e) = ..find(..)`)
+        single = False
+        for rb, t in rems:
+            body_blocks = set()
+            for h, bs in rr.loops_containing(rb):
+                body_blocks |= bs
+            for (k, d) in dep_closure(rr, t["args"][1]):
+                if k == "call" and callee_decl(rr.blocks[d].term).rsplit("::", 1)[-1] in ("find", "find_map", "nth", "last", "position", "find_edge") and d not in body_blocks:
+                    single = True
+        all_removed = in_loop and from_all and not single
+    ctx.check(bool(rems or retain), "remove_relation/removes-edge", site_of(rr), "remove_relation does not remove an edge")
+    ctx.check(idempotent or all_removed, "remove_relation/undoes-every-add", site_of(rr, rems[0][0]) if rems else site_of(rr),
+              "add_relation adds an edge unconditionally (two observers add the same relation when the relationship and Replicated arrive in one bundle), but remove_relation "
+              "removes at most one matching edge: a stale edge keeps the entities in one group after the relationship is gone",
+              "adding is idempotent" if idempotent else "every matching edge is removed")
+    # the type filter: only edges of this relationship type are touched
+    typed = False
+    for cb in F.closures_of(rr.path):
+        if any(callee_decl(t).rsplit("::", 1)[-1] in ("eq", "ne") for _, t in cb.calls()) and any(callee_decl(t).endswith("weight") for _, t in cb.calls()):
+            typed = True
+    ctx.check(typed, "remove_relation/only-edges-of-this-type", site_of(rr), "edges of other relationship types between the same entities are removed as well (or no type filter found)")
+
+
 RULES = [
     ("C10.R1", "message boundaries only between chunks; chunks are whole groups / single entities; one send per message; ack list per chunk", r1_boundaries, 12, ["default", "all-features", "server-only"]),
     ("C10.R2", "graphs rebuilt and every client's group buffers resized before changes are collected", r2_freshness, 5, ["default", "all-features", "server-only"]),
     ("C10.R3", "a mutated entity's group is graph_index of that entity", r3_group_choice, 4, ["default", "all-features", "server-only"]),
     ("C10.R4", "graph maintenance: observer wiring, dirty marking, rebuild", r4_wiring, 14, ["default", "all-features", "server-only"]),
+    ("C10.R5", "removing a relation undoes every edge adding it created (parallel edges from the two add observers)", r5_edge_symmetry, 4, ["default", "all-features", "server-only"]),
 ]
 THOROUGH_CONFIGS = ["default", "all-features", "server-only"]
